@@ -108,10 +108,10 @@ def toMeta (ens : List Nat) (sh : Shard) : ShardMeta :=
 def proj (m : ShardMeta) : Shard × ShardStatus := ({ id := m.id, min := m.min, max := m.max }, m.status)
 
 /-- with a supplier that never fails every generated shard gets its metadata, in order -/
-theorem fold_metas (sup : Supplier) (hs : ∀ nc st, (sup nc st).isSome) (cfg : ClusterConfig) (st : ClusterStatus) (nc : NsConfig)
+theorem fold_metas (sup : Supplier) (hs : ∀ nc st k, (sup nc st k).isSome) (cfg : ClusterConfig) (st : ClusterStatus) (nc : NsConfig)
     (shards : List Shard) (acc : List ShardMeta) (idx : Nat) :
     ((shards.foldl (fun (acc : List ShardMeta × Nat) sh =>
-      match sup nc { st with serverIdx := acc.2 } with
+      match sup nc { st with serverIdx := acc.2 } (sh.id - st.gen).toNat with
       | none => acc
       | some ens =>
         (acc.1 ++ [{ id := sh.id, status := .unknown, ensemble := ens, min := sh.min, max := sh.max }],
@@ -121,8 +121,8 @@ theorem fold_metas (sup : Supplier) (hs : ∀ nc st, (sup nc st).isSome) (cfg : 
   | nil => simp
   | cons sh rest ih =>
     simp only [List.foldl]
-    cases hsup : sup nc { st with serverIdx := idx } with
-    | none => have := hs nc { st with serverIdx := idx }; rw [hsup] at this; cases this
+    cases hsup : sup nc { st with serverIdx := idx } (sh.id - st.gen).toNat with
+    | none => have := hs nc { st with serverIdx := idx } (sh.id - st.gen).toNat; rw [hsup] at this; cases this
     | some ens =>
       simp only [hsup]
       rw [ih]
@@ -146,10 +146,10 @@ theorem matches_append {a : List ShardMeta} {b : List Shard} {m : ShardMeta} {sh
       obtain ⟨h1, h2, h3, h4, h5⟩ := h
       exact ⟨h1, h2, h3, h4, ih h5⟩
 
-theorem fold_matches (sup : Supplier) (hs : ∀ nc st, (sup nc st).isSome) (cfg : ClusterConfig) (st : ClusterStatus) (nc : NsConfig)
+theorem fold_matches (sup : Supplier) (hs : ∀ nc st k, (sup nc st k).isSome) (cfg : ClusterConfig) (st : ClusterStatus) (nc : NsConfig)
     (shards : List Shard) (acc : List ShardMeta) (accS : List Shard) (idx : Nat) (hacc : Matches acc accS) :
     Matches (shards.foldl (fun (acc : List ShardMeta × Nat) sh =>
-      match sup nc { st with serverIdx := acc.2 } with
+      match sup nc { st with serverIdx := acc.2 } (sh.id - st.gen).toNat with
       | none => acc
       | some ens =>
         (acc.1 ++ [{ id := sh.id, status := .unknown, ensemble := ens, min := sh.min, max := sh.max }],
@@ -158,8 +158,8 @@ theorem fold_matches (sup : Supplier) (hs : ∀ nc st, (sup nc st).isSome) (cfg 
   | nil => simpa using hacc
   | cons sh rest ih =>
     simp only [List.foldl]
-    cases hsup : sup nc { st with serverIdx := idx } with
-    | none => have := hs nc { st with serverIdx := idx }; rw [hsup] at this; cases this
+    cases hsup : sup nc { st with serverIdx := idx } (sh.id - st.gen).toNat with
+    | none => have := hs nc { st with serverIdx := idx } (sh.id - st.gen).toNat; rw [hsup] at this; cases this
     | some ens =>
       have := ih (acc ++ [{ id := sh.id, status := .unknown, ensemble := ens, min := sh.min, max := sh.max }]) (accS ++ [sh])
         (if cfg.servers = 0 then idx else (idx + nc.rf) % cfg.servers) (matches_append hacc ⟨rfl, rfl, rfl, rfl⟩)
@@ -189,7 +189,7 @@ theorem allIds_append (st : ClusterStatus) (ns : NsStatus) :
   simp [allIds]
 
 /-- creating a namespace keeps the status invariant (supplier never fails, 1..65536 shards) -/
-theorem newNamespace_inv (sup : Supplier) (hs : ∀ nc st, (sup nc st).isSome) (cfg : ClusterConfig)
+theorem newNamespace_inv (sup : Supplier) (hs : ∀ nc st k, (sup nc st k).isSome) (cfg : ClusterConfig)
     (st : ClusterStatus) (nc : NsConfig) (h1 : 1 ≤ nc.initialShardCount) (h2 : nc.initialShardCount ≤ 65536)
     (inv : StatusInv st) : StatusInv (newNamespace sup cfg st nc) ∧ st.gen ≤ (newNamespace sup cfg st nc).gen := by
   obtain ⟨shards, hgen, hpart, hids⟩ := C18_generate_partition st.gen nc.initialShardCount h1 h2
@@ -199,7 +199,7 @@ theorem newNamespace_inv (sup : Supplier) (hs : ∀ nc st, (sup nc st).isSome) (
   have hm := fold_matches sup hs cfg st nc shards [] [] st.serverIdx trivial
   simp only [List.nil_append] at hm
   generalize (shards.foldl (fun (acc : List ShardMeta × Nat) sh =>
-      match sup nc { st with serverIdx := acc.2 } with
+      match sup nc { st with serverIdx := acc.2 } (sh.id - st.gen).toNat with
       | none => acc
       | some ens =>
         (acc.1 ++ [{ id := sh.id, status := .unknown, ensemble := ens, min := sh.min, max := sh.max }],
@@ -245,7 +245,7 @@ theorem newNamespace_inv (sup : Supplier) (hs : ∀ nc st, (sup nc st).isSome) (
 def CfgOk (cfg : ClusterConfig) : Prop :=
   ∀ nc ∈ cfg.namespaces, 1 ≤ nc.initialShardCount ∧ nc.initialShardCount ≤ 65536
 
-theorem fold_new_inv (sup : Supplier) (hs : ∀ nc st, (sup nc st).isSome) (cfg : ClusterConfig) (st0 : ClusterStatus)
+theorem fold_new_inv (sup : Supplier) (hs : ∀ nc st k, (sup nc st k).isSome) (cfg : ClusterConfig) (st0 : ClusterStatus)
     (l : List NsConfig) (hl : ∀ nc ∈ l, 1 ≤ nc.initialShardCount ∧ nc.initialShardCount ≤ 65536)
     (acc : ClusterStatus) (inv : StatusInv acc) :
     StatusInv (l.foldl (fun acc nc =>
@@ -287,7 +287,7 @@ theorem mark_inv (st : ClusterStatus) (p : NsStatus → Bool) (inv : StatusInv s
     · exact inv.ns ns hns
 
 /-- one configuration change keeps the invariant and never moves the id generator backwards -/
-theorem applyClusterChanges_inv (sup : Supplier) (hs : ∀ nc st, (sup nc st).isSome) (cfg : ClusterConfig)
+theorem applyClusterChanges_inv (sup : Supplier) (hs : ∀ nc st k, (sup nc st k).isSome) (cfg : ClusterConfig)
     (hc : CfgOk cfg) (st : ClusterStatus) (inv : StatusInv st) :
     StatusInv (applyClusterChanges sup cfg st) ∧ st.gen ≤ (applyClusterChanges sup cfg st).gen := by
   unfold applyClusterChanges
@@ -299,7 +299,7 @@ theorem applyClusterChanges_inv (sup : Supplier) (hs : ∀ nc st, (sup nc st).is
     either is being deleted as a whole or publishes a partition of the hash space — provided the
     ensemble supplier does not fail (see known finding D-20 for what happens when it does) and shard
     counts are within 1..65536. -/
-theorem C18_status_invariant (sup : Supplier) (hs : ∀ nc st, (sup nc st).isSome) (cfgs : List ClusterConfig)
+theorem C18_status_invariant (sup : Supplier) (hs : ∀ nc st k, (sup nc st k).isSome) (cfgs : List ClusterConfig)
     (hc : ∀ cfg ∈ cfgs, CfgOk cfg) (st : ClusterStatus) (inv : StatusInv st) :
     StatusInv (cfgs.foldl (fun st cfg => applyClusterChanges sup cfg st) st) ∧
     st.gen ≤ (cfgs.foldl (fun st cfg => applyClusterChanges sup cfg st) st).gen := by
@@ -317,7 +317,7 @@ theorem C18_initial_status_inv : StatusInv { namespaces := [], gen := 0, serverI
 /-- a supplier that fails leaves a hole: the namespace is stored without that shard and what is
     published is not a partition (fact `applyClusterChangesSkipsFailedShards`; defect D-20) -/
 theorem C18_counterexample_failing_supplier :
-    let sup : Supplier := fun _ st => if st.serverIdx = 0 then none else some [1]
+    let sup : Supplier := fun _ st _ => if st.serverIdx = 0 then none else some [1]
     let st := applyClusterChanges sup { namespaces := [{ name := 1, initialShardCount := 2, rf := 1 }], servers := 2 }
       { namespaces := [], gen := 0, serverIdx := 1 }
     st.namespaces.map published = [[{ id := 0, min := 0, max := 2147483647 }]] := by decide
